@@ -31,6 +31,10 @@ func shapes(thorough bool) []Shape {
 				}
 			}
 		}
+		// more devices than the driver's 4-entry device port holds messages
+		for _, d := range []int{5, 8} {
+			out = append(out, Shape{d, 1, 1, f}, Shape{d, 2, 2, f})
+		}
 		// more sub-cores than a port buffer holds messages (the SM-to-sub-core port has 4 entries)
 		for _, s := range []int{1, 2} {
 			for _, c := range []int{5, 8} {
@@ -251,6 +255,16 @@ func genCases(thorough bool) []Case {
 	add := func(fam string, shape [][][]int) {
 		cases = append(cases, Case{Family: fam, Trace: b.trace(shape, v), Simulate: true})
 		v++
+	}
+	// ---- many kernels: more kernels queued than devices / than a 4-entry port buffer
+	for _, k := range []int{5, 6, 9, 12} {
+		for _, n := range []int{1, 3} {
+			var shape [][][]int
+			for i := 0; i < k; i++ {
+				shape = append(shape, [][]int{{n, n}, {n}})
+			}
+			add("many-kernels", shape)
+		}
 	}
 	// ---- wide blocks: more warps per block than a 4-entry port buffer / than sub-cores
 	for _, k := range []int{1, 2} {
